@@ -7,6 +7,15 @@ PY = "/venv/bin/python"
 
 # property id -> (design section, technique, level text, level note)
 BUILT = {
+    "C06": ("§4.6", "explicit-state search over histories of processed files with deduplication on a generic snapshot "
+            "of the process-level state, each history run in a child forked from a pristine image; exhaustive "
+            "permutation family of the rules-directory listing in fresh interpreters",
+            "BFS to closure over the global state plus all un-merged histories of length <= 2/3 over a 12-file pool "
+            "(clean/erroneous/fatal/#if-failure/deep-recursion/...); every file's observation must equal its "
+            "observation alone; listing orders (reverse, rotations, transpositions, shuffles) must not change the rule "
+            "tables nor any diagnostic.",
+            "Trusts fork() to reproduce the pristine interpreter state (cross-checked against fresh interpreters) and the "
+            "generic walk of mc/props/c06.py global_state() to see all surviving state."),
     "C04": ("§4.4", "exhaustive history search over file-class sequences (length 0..4) x argument modes through the "
             "real main(), against a 6-line reference model of verdicts and exit status",
             "All 340 class sequences as explicit paths, all multisets as a directory / as cwd and the empty selections "
